@@ -9,26 +9,25 @@ From Coq Require Import List ZArith NArith String Bool Lia.
 From SCC Require Import Base.Sexp Lang.SynUtil Lang.FunSyn Lang.FunTy Lang.CoreSyn.
 From SCC Require Import Sem.AxSem Sem.FunSem Sem.FsCheck Sem.CoreCheck Model.Fun2Core Model.Fun2CoreGuard Model.Fun2CoreTyGuard.
 From SCC Require Import Proof.CoreInd Proof.Fun2CoreProof Proof.Fun2CoreTfv Proof.Fun2CoreInv Proof.Fun2CoreProg Proof.CoreTyRules
-     Proof.CoreTyFv Proof.CoreTyChi Proof.Fun2CoreTyBase Proof.Fun2CoreTyShare Proof.Fun2CoreTyMain Proof.Fun2CoreTyTerm Proof.Fun2CoreTyScope.
+     Proof.CoreTyFv Proof.CoreTyChi Proof.Fun2CoreTyBase Proof.Fun2CoreTyEntry Proof.Fun2CoreTyShare Proof.Fun2CoreTyMain Proof.Fun2CoreTyTerm Proof.Fun2CoreTyScope.
 Import ListNotations.
 Open Scope string_scope.
 Open Scope list_scope.
 
 (* ---------- every definition of the output belongs to the group of a source definition ---------- *)
-Lemma compile_defs_cover_nc : forall lg defs codata ul front back res,
-  compile_defs lg false defs codata ul front back = Ok res ->
+Lemma compile_defs_cover_grp : forall lg called defs codata ul front back res,
+  compile_defs lg called defs codata ul front back = Ok res ->
   forall x, In x res ->
     In x front \/ In x back \/
     exists d ul1 g ul2, In d defs /\
-      (if String.eqb (fdname d) "main" then compile_main lg d codata ul1 else compile_def lg d codata ul1) = Ok (g, ul2) /\
+      (if String.eqb (fdname d) "main" then compile_main_group lg called d codata ul1 else compile_def lg d codata ul1) = Ok (g, ul2) /\
       In x g /\ incl g res.
 Proof.
-  intros lg. induction defs as [|d r IH]; intros codata ul front back res H x Hx; simpl in H.
-  2: unfold compile_main_group in H; cbn [andb] in H.
+  intros lg called. induction defs as [|d r IH]; intros codata ul front back res H x Hx; simpl in H.
   - injection H as H. subst res. apply in_app_or in Hx. destruct Hx as [Hx|Hx]; [left; exact Hx|].
     right. left. rewrite rev_append_rev, app_nil_r in Hx. apply in_rev in Hx. exact Hx.
   - destruct (String.eqb (fdname d) "main") eqn:E.
-    + destruct (compile_main lg d codata ul) as [[g ul']|?] eqn:Em; simpl in H; [|discriminate].
+    + destruct (compile_main_group lg called d codata ul) as [[g ul']|?] eqn:Em; simpl in H; [|discriminate].
       destruct (compile_defs_groups _ _ _ _ _ _ _ _ H) as [_ [Hfr _]].
       destruct (IH _ _ _ _ _ H x Hx) as [H1|[H1|[d' [ul1 [g' [ul2 [Hd' [Hc [Hin Hinc]]]]]]]]].
       * apply in_app_or in H1. destruct H1 as [H1|H1]; [|left; exact H1].
@@ -55,19 +54,17 @@ Section Prog.
   Notation C := (ccodata_of p).
 
   Lemma guard_decls : decls_tyguard p = true.
-  Proof. unfold prog_tyguard in Hguard. apply andb_prop in Hguard. destruct Hguard as [H _]. apply andb_prop in H. tauto. Qed.
-  Lemma guard_ncm : calls_main_prog p = false.
-  Proof. unfold prog_tyguard in Hguard. apply andb_prop in Hguard. destruct Hguard as [H _]. apply andb_prop in H. destruct H as [_ H]. apply negb_true_iff in H. exact H. Qed.
+  Proof. unfold prog_tyguard in Hguard. apply andb_prop in Hguard. tauto. Qed.
   Lemma guard_def : forall d, In d (fcpdefs p) -> def_tyguard p D C d = true.
   Proof. intros d Hd. unfold prog_tyguard in Hguard. apply andb_prop in Hguard. destruct Hguard as [_ H]. rewrite forallb_forall in H. apply H. exact Hd. Qed.
   Lemma src_names_nodup : NoDup (map fdname (fcpdefs p)).
   Proof. pose proof guard_decls as H. unfold decls_tyguard in H. apply andb_prop in H. destruct H as [_ H]. apply nodup_str_nd. exact H. Qed.
 
   Lemma prog_shape : exists defs,
-    compile_defs false false (fcpdefs p) C (map fdname (fcpdefs p)) [] [] = Ok defs /\ c = mkcp defs D C 0.
+    compile_defs false (calls_main_prog p) (fcpdefs p) C (map fdname (fcpdefs p)) [] [] = Ok defs /\ c = mkcp defs D C 0.
   Proof.
-    unfold compile_prog, compile_prog_gen in Hcomp. fold D C in Hcomp. rewrite guard_ncm in Hcomp.
-    destruct (compile_defs false false (fcpdefs p) C _ [] []) as [defs|?] eqn:E; simpl in Hcomp; [|discriminate].
+    unfold compile_prog, compile_prog_gen in Hcomp. fold D C in Hcomp.
+    destruct (compile_defs false (calls_main_prog p) (fcpdefs p) C _ [] []) as [defs|?] eqn:E; simpl in Hcomp; [|discriminate].
     injection Hcomp as Hc. exists defs. auto.
   Qed.
 
@@ -76,7 +73,7 @@ Section Prog.
 
   (* the group of a source definition *)
   Lemma group_of : forall d, In d (fcpdefs p) -> exists ul1 g ul2,
-    (if String.eqb (fdname d) "main" then compile_main false d C ul1 else compile_def false d C ul1) = Ok (g, ul2) /\
+    (if String.eqb (fdname d) "main" then compile_main_group false (calls_main_prog p) d C ul1 else compile_def false d C ul1) = Ok (g, ul2) /\
     incl g (cpdefs c).
   Proof.
     intros d Hd. destruct prog_shape as [defs [Hdefs Hc]].
@@ -84,14 +81,26 @@ Section Prog.
     destruct (Hgroups d Hd) as [ul1 [g [ul2 [H1 H2]]]]. exists ul1, g, ul2. split; [exact H1|]. rewrite Hc. exact H2.
   Qed.
 
-  Lemma callee : forall f d, ffind_def p f = Some d -> f <> "main" ->
+  (* every definition that can be called is compiled by compile_def: all but main, and main too when it is called *)
+  Lemma callee_group : forall d, In d (fcpdefs p) -> (fdname d <> "main" \/ calls_main_prog p = true) ->
+    exists ul1 g ul2, compile_def false d C ul1 = Ok (g, ul2) /\ incl g (cpdefs c).
+  Proof.
+    intros d Hin Hm. destruct (group_of d Hin) as [ul1 [g [ul2 [Hc Hincl]]]].
+    destruct (String.eqb (fdname d) "main") eqn:Em.
+    - apply String.eqb_eq in Em. destruct Hm as [Hm|Hm]; [contradiction|].
+      destruct (compile_main_group_inv _ _ _ _ _ _ _ Hc) as [[Hf _]|[_ [nm [e [ule [m [_ [_ [Hd ->]]]]]]]]].
+      + rewrite Hm in Hf. discriminate Hf.
+      + exists ule, m, ul2. split; [exact Hd|]. intros x Hx. apply Hincl. apply in_or_app. right. exact Hx.
+    - exists ul1, g, ul2. auto.
+  Qed.
+
+  Lemma callee : forall f d, ffind_def p f = Some d -> (f <> "main" \/ calls_main_prog p = true) ->
     exists a body, find (fun d' => cident_eqb (cdname d') (new_id f)) (cpdefs c) =
                    Some (mkcd (new_id f) (compile_ctx (fdctx d) ++ [mkcb (new_id a) CCns (compile_ty (fdret d))]) body).
   Proof.
     intros f d Hf Hnm. destruct (find_def_in _ _ _ Hf) as [Hin Hname].
-    destruct (group_of d Hin) as [ul1 [g [ul2 [Hc Hincl]]]].
-    assert (Em : String.eqb (fdname d) "main" = false) by (apply String.eqb_neq; congruence).
-    rewrite Em in Hc. unfold compile_def in Hc.
+    destruct (callee_group d Hin) as [ul1 [g [ul2 [Hc Hincl]]]]; [rewrite Hname; exact Hnm|].
+    unfold compile_def in Hc.
     match type of Hc with context [run_def_body ?cd ?dd ?u ?k] =>
       destruct (run_def_body cd dd u k) as [[[a body] st']|?] eqn:Eb end; simpl in Hc; [|discriminate].
     injection Hc as Hg Hul. subst g. exists a, body. rewrite <- Hname.
@@ -119,14 +128,15 @@ Section Prog.
     rewrite Ev in Hv. apply new_id_inj in Hv. subst v. exact Hin.
   Qed.
 
-  (* a definition other than main, and its lifted definitions *)
-  Lemma def_group_typed : forall d ul1 g ul2, In d (fcpdefs p) -> String.eqb (fdname d) "main" = false ->
+  (* a definition compiled by compile_def (any definition - member of p or not - whose parameters are pairwise distinct
+     and of declared types and whose body is typed at the declared return type), and its lifted definitions *)
+  Lemma def_typed_gen : forall d ul1 g ul2,
+    nodup_str (fvars (fdctx d)) = true -> ctx_tyd D C (compile_ctx (fdctx d)) = true ->
+    tg p D C (compile_ctx (fdctx d)) (fdbody d) = true ->
+    has_ty (fdbody d) (compile_ty (fdret d)) = true -> tyd D C (compile_ty (fdret d)) = true ->
     compile_def false d C ul1 = Ok (g, ul2) -> incl g (cpdefs c) -> forall x, In x g -> def_typed x.
   Proof.
-    intros d ul1 g ul2 Hd Em Hc Hincl.
-    pose proof (guard_def d Hd) as Hgd. unfold def_tyguard in Hgd. rewrite Em in Hgd.
-    apply andb_prop in Hgd. destruct Hgd as [Hgd Hret]. apply andb_prop in Hret. destruct Hret as [Hret Htdr].
-    apply andb_prop in Hgd. destruct Hgd as [Hgd Htg]. apply andb_prop in Hgd. destruct Hgd as [Hnd Hctd].
+    intros d ul1 g ul2 Hnd Hctd Htg Hret Htdr Hc Hincl.
     apply has_ty_tyo in Hret.
     unfold compile_def in Hc.
     match type of Hc with context [run_def_body ?cd ?dd ?u ?k] =>
@@ -181,13 +191,14 @@ Section Prog.
         rewrite Forall_forall in Hall. apply Hall. exact Hx.
   Qed.
 
-  Lemma main_group_typed : forall d ul1 g ul2, In d (fcpdefs p) -> String.eqb (fdname d) "main" = true ->
+  (* a definition compiled by compile_main (main when it is not called; the entry point when it is), and its lifted
+     definitions: parameters pairwise distinct and of declared types, body typed at i64 *)
+  Lemma main_typed_gen : forall d ul1 g ul2,
+    nodup_str (fvars (fdctx d)) = true -> ctx_tyd D C (compile_ctx (fdctx d)) = true ->
+    tg p D C (compile_ctx (fdctx d)) (fdbody d) = true -> has_ty (fdbody d) CI64 = true ->
     compile_main false d C ul1 = Ok (g, ul2) -> incl g (cpdefs c) -> forall x, In x g -> def_typed x.
   Proof.
-    intros d ul1 g ul2 Hd Em Hc Hincl.
-    pose proof (guard_def d Hd) as Hgd. unfold def_tyguard in Hgd. rewrite Em in Hgd.
-    apply andb_prop in Hgd. destruct Hgd as [Hgd Hret].
-    apply andb_prop in Hgd. destruct Hgd as [Hgd Htg]. apply andb_prop in Hgd. destruct Hgd as [Hnd Hctd].
+    intros d ul1 g ul2 Hnd Hctd Htg Hret Hc Hincl.
     apply has_ty_tyo in Hret.
     unfold compile_main in Hc.
     match type of Hc with context [run_def_body ?cd ?dd ?u ?k] =>
@@ -224,11 +235,45 @@ Section Prog.
         rewrite Forall_forall in Hall. apply Hall. exact Hx.
   Qed.
 
+  Lemma def_group_typed : forall d ul1 g ul2, In d (fcpdefs p) -> String.eqb (fdname d) "main" = false ->
+    compile_def false d C ul1 = Ok (g, ul2) -> incl g (cpdefs c) -> forall x, In x g -> def_typed x.
+  Proof.
+    intros d ul1 g ul2 Hd Em Hc Hincl.
+    pose proof (guard_def d Hd) as Hgd. unfold def_tyguard in Hgd. rewrite Em in Hgd.
+    apply andb_prop in Hgd. destruct Hgd as [Hgd Hret]. apply andb_prop in Hret. destruct Hret as [Hret Htdr].
+    apply andb_prop in Hgd. destruct Hgd as [Hgd Htg]. apply andb_prop in Hgd. destruct Hgd as [Hnd Hctd].
+    eapply def_typed_gen; eassumption.
+  Qed.
+
+  (* the definitions that come first: main compiled by compile_main, or - when main is called (fix f929eb7) - the entry
+     point  def main<n>(params) { main(params, mu~x. exit x) }  followed by main compiled like any other definition *)
+  Lemma main_group_typed : forall d ul1 g ul2, In d (fcpdefs p) -> String.eqb (fdname d) "main" = true ->
+    compile_main_group false (calls_main_prog p) d C ul1 = Ok (g, ul2) -> incl g (cpdefs c) -> forall x, In x g -> def_typed x.
+  Proof.
+    intros d ul1 g ul2 Hd Em Hc Hincl.
+    pose proof (guard_def d Hd) as Hgd. unfold def_tyguard in Hgd. rewrite Em in Hgd.
+    apply andb_prop in Hgd. destruct Hgd as [Hgd Hret]. apply andb_prop in Hret. destruct Hret as [Hret Hcalled].
+    apply andb_prop in Hgd. destruct Hgd as [Hgd Htg]. apply andb_prop in Hgd. destruct Hgd as [Hnd Hctd].
+    destruct (compile_main_group_inv _ _ _ _ _ _ _ Hc) as [[_ Hm]|[Hcm [nm [e [ule [m [_ [He [Hm ->]]]]]]]]].
+    - eapply main_typed_gen; eassumption.
+    - rewrite andb_true_r in Hcm. rewrite Hcm in Hcalled. cbn [negb orb] in Hcalled. apply ceq_ty in Hcalled.
+      assert (Htdr : tyd D C (compile_ty (fdret d)) = true) by (rewrite Hcalled; reflexivity).
+      apply String.eqb_eq in Em.
+      intros x Hx. apply in_app_or in Hx. destruct Hx as [Hx|Hx].
+      + refine (main_typed_gen (entry_fdef d nm) _ _ _ Hnd Hctd _ _ He _ x Hx).
+        * exact (entry_tg p D C d nm Hnd Hctd (find_def_nodup p d src_names_nodup Hd) Em Hcm Htdr).
+        * unfold entry_fdef, has_ty, tyo. cbn [fdbody fterm_type option_map]. rewrite Hcalled. reflexivity.
+        * intros y Hy. apply Hincl. apply in_or_app. left. exact Hy.
+      + refine (def_typed_gen d _ _ _ Hnd Hctd Htg _ Htdr Hm _ x Hx).
+        * rewrite Hcalled. exact Hret.
+        * intros y Hy. apply Hincl. apply in_or_app. right. exact Hy.
+  Qed.
+
   Lemma all_defs_typed : forall x, In x (cpdefs c) -> def_typed x.
   Proof.
     intros x Hx. destruct prog_shape as [defs [Hdefs Hc]].
     assert (Hx' : In x defs) by (rewrite Hc in Hx; exact Hx).
-    destruct (compile_defs_cover_nc _ _ _ _ _ _ _ Hdefs x Hx') as [[]|[[]|[d [ul1 [g [ul2 [Hd [Hg [Hin Hinc]]]]]]]]].
+    destruct (compile_defs_cover_grp _ _ _ _ _ _ _ _ Hdefs x Hx') as [[]|[[]|[d [ul1 [g [ul2 [Hd [Hg [Hin Hinc]]]]]]]]].
     assert (Hincl : incl g (cpdefs c)) by (rewrite Hc; exact Hinc).
     destruct (String.eqb (fdname d) "main") eqn:Em.
     - eapply main_group_typed; eassumption.
